@@ -140,6 +140,14 @@ def scenario(B, G, kind, n, h, a=None, regions=None):
     for i in range(3):
         two = B.scalars(SWAP(A0).apply(st, C.rows_tensor(B, [three[i], three[i - 1]])))
         G.eq("cyclic_pairing[%d]" % i, v3[i], two[0])
+    # ... for longer batches too (a neighbour, not the row half a batch away)
+    for blen in (4, 5):
+        many = [rows[(3 * i + 1) % D] for i in range(blen)]
+        vm = B.scalars(SWAP(A0).apply(st, C.rows_tensor(B, many)))
+        G.fact("cyclic_pairing.batch%d.shape" % blen, tuple(np.shape(vm)) == (blen,), np.shape(vm))
+        for i in range(blen):
+            two = B.scalars(SWAP(A0).apply(st, C.rows_tensor(B, [many[i], many[i - 1]])))
+            G.eq("cyclic_pairing.batch%d[%d]" % (blen, i), vm[i], two[0])
     if D > 2:
         two = B.scalars(SWAP(A0).apply(st, C.rows_tensor(B, [three[0], three[1]])))
         G.twin("twin_pairing_with_next", v3[0], two[0])
